@@ -83,6 +83,7 @@ pub enum Kind {
     NameOnly,
     PrefName,
     TwoNames,
+    Svc,
     Opaque,
 }
 
@@ -109,6 +110,7 @@ fn kind() -> impl Strategy<Value = Kind> {
         1 => Just(Kind::NameOnly),
         1 => Just(Kind::PrefName),
         1 => Just(Kind::TwoNames),
+        2 => Just(Kind::Svc),
         2 => Just(Kind::Opaque),
     ]
 }
@@ -270,6 +272,13 @@ fn build(kind: Kind, i: usize, s: &Seed) -> MRdata {
             a: nm(0),
             b: nm(1),
         },
+        Kind::Svc => MRdata::Svc {
+            code: [64u16, 65][s.code_sel % 2],
+            // priority 0 is the alias form, which carries no parameters
+            prio: 1 + num(0) as u16 % 3,
+            target: nm(0),
+            port: if num(1) % 2 == 0 { None } else { Some(num(2) as u16) },
+        },
         Kind::Opaque => MRdata::Opaque {
             // type codes without any special rule, unknown to hickory: SPF(99), URI(256),
             // private use
@@ -330,6 +339,18 @@ pub fn case_variant(rd: &MRdata, mask: u64) -> MRdata {
             code: *code,
             a: flip(a),
             b: flip(b),
+        },
+        // for these two the variant is a different RR (the name is not folded), which the signed
+        // data must keep next to the original
+        MRdata::Nsec { next, types } => MRdata::Nsec {
+            next: flip(next),
+            types: types.clone(),
+        },
+        MRdata::Svc { code, prio, target, port } => MRdata::Svc {
+            code: *code,
+            prio: *prio,
+            target: flip(target),
+            port: *port,
         },
         other => other.clone(),
     }
